@@ -23,13 +23,21 @@ func (pt *WgCounter) Count() int {
 	return int(pt.count.Load())
 }
 
-func (pt *WgCounter) Done() {
-	if pt.count.Load() == 0 {
-		return
-	}
+// Done decrements the counter unless it is already zero. It reports whether this
+// call brought the counter to zero, so that exactly one caller observes the end.
+func (pt *WgCounter) Done() bool {
+	for {
+		c := pt.count.Load()
 
-	pt.count.Add(^uint32(0))
-	pt.wg.Done()
+		if c == 0 {
+			return false
+		}
+
+		if pt.count.CompareAndSwap(c, c-1) {
+			pt.wg.Done()
+			return c == 1
+		}
+	}
 }
 
 func (pt *WgCounter) Wait() {
